@@ -188,6 +188,8 @@ func genGid(rng *rand.Rand) int64 {
 		return math.MaxInt64
 	case 4:
 		return rng.Int63()
+	case 5:
+		return 1 + rng.Int63n(3) // the smallest ids that are still printed
 	default:
 		return 1 + rng.Int63n(300)
 	}
